@@ -138,8 +138,12 @@ func (g *gen) relayFrom(results []*abci.ExecTxResult) {
 		for _, e := range r.Events {
 			switch e.Type {
 			case channeltypes.EventTypeSendPacket:
-				if p, ok := packetOf(e); ok && g.rng.Intn(8) != 0 { // one packet in eight is never relayed
-					g.relayQ = append(g.relayQ, channeltypes.NewMsgRecvPacket(p, sentinelProof, clienttypes.ZeroHeight(), g.relayer.Addr()))
+				if p, ok := packetOf(e); ok {
+					if g.rng.Intn(6) != 0 {
+						g.relayQ = append(g.relayQ, channeltypes.NewMsgRecvPacket(p, sentinelProof, clienttypes.ZeroHeight(), g.relayer.Addr()))
+					} else { // one packet in six is never delivered: it is timed out (refund through the fx middleware) once its time is up
+						g.unrelayed = append(g.unrelayed, p)
+					}
 				}
 			case channeltypes.EventTypeWriteAck:
 				if p, ok := packetOf(e); ok {
@@ -156,6 +160,25 @@ func (g *gen) relayFrom(results []*abci.ExecTxResult) {
 func (g *gen) flushRelay() {
 	q := g.relayQ
 	g.relayQ = nil
+	// packets that were never delivered and whose timeout has passed on the (loopback) counterparty: MsgTimeout; one of
+	// them a second time in a later block (fails: the commitment is gone)
+	var keep []channeltypes.Packet
+	for _, p := range g.unrelayed {
+		if p.TimeoutTimestamp != 0 && uint64(g.c.Time.UnixNano()) > p.TimeoutTimestamp {
+			g.tx(g.relayer, channeltypes.NewMsgTimeout(p, 1, sentinelProof, g.proofHeight(), g.relayer.Addr()))
+			g.out.Count("ibc:timeout-queued")
+			if g.rng.Intn(3) == 0 {
+				g.timedOut = append(g.timedOut, p)
+			}
+			continue
+		}
+		keep = append(keep, p)
+	}
+	g.unrelayed = keep
+	if len(g.timedOut) > 0 && g.rng.Intn(2) == 0 {
+		g.tx(g.relayer, channeltypes.NewMsgTimeout(g.timedOut[0], 1, sentinelProof, g.proofHeight(), g.relayer.Addr()))
+		g.timedOut = g.timedOut[1:]
+	}
 	for _, m := range q {
 		switch x := m.(type) {
 		case *channeltypes.MsgRecvPacket:
